@@ -286,6 +286,8 @@ def b_grid(ctx):
                             ctx.count(f'solver-exception:{name}')
                             continue
                         ctx.case(L > K / 10, key=(name, E, K, n, Kp, L, tol, secondary))
+                        # failure keys name the tolerance regime, so that a finding about tolerances tighter than the default cannot hide a failure at the default
+                        tt = '' if tol >= 1e-4 else ':tolerance-tighter-than-default'
                         if not np.isfinite(s):
                             ctx.fail(f'C06:non-finite:{name}', f'{name} returned {s} for load {LL} (E={E}, K={K}, n={n}, K_p={Kp})', {'E': E, 'K': K, 'n': n, 'K_p': Kp, 'L': LL, 'secondary': secondary})
                             continue
@@ -297,29 +299,29 @@ def b_grid(ctx):
                             ctx.count(f'oracle-root-not-found:{name}')
                         elif abs(s - root) > slack + 1e-9 * abs(root):
                             regime = 'small-load' if LL <= 0.05 * K else 'plastic'
-                            ctx.fail(f'C06:equation:{name}:{regime}', f'{name}: stress {s} for load {LL}, root of the defining equation is {root} (difference {abs(s - root):.3e}, '
+                            ctx.fail(f'C06:equation:{name}:{regime}{tt}', f'{name}: stress {s} for load {LL}, root of the defining equation is {root} (difference {abs(s - root):.3e}, '
                                      f'tolerance tol=rtol={tol}) E={E} K={K} n={n} K_p={Kp} secondary={secondary}',
                                      f"import numpy as np\nfrom pylife.materiallaws.notch_approximation_law import ExtendedNeuber\nfrom pylife.materiallaws.notch_approximation_law_seegerbeste import SeegerBeste\n"
                                      f"law = {'SeegerBeste' if name == 'seegerbeste' else 'ExtendedNeuber'}({E}, {K}, {n}, {Kp})\n"
                                      f"s = law.{'stress_secondary_branch' if secondary else 'stress'}(np.array([{LL}, {LL}]), rtol={tol}, tol={tol})[0]\nprint(s, 'independent root:', {root})\n"
                                      f"assert abs(s - {root}) <= 10 * ({tol} + {tol} * abs(s)), abs(s - {root})\n")
                         if not (LL / Kp - slack <= s <= LL + slack):
-                            ctx.fail(f'C06:bracket:{name}', f'{name}: stress {s} outside [{LL / Kp}, {LL}] (E={E}, K={K}, n={n}, K_p={Kp}, secondary={secondary})', {'E': E, 'K': K, 'n': n, 'K_p': Kp, 'L': LL})
+                            ctx.fail(f'C06:bracket:{name}{tt}', f'{name}: stress {s} outside [{LL / Kp}, {LL}] (E={E}, K={K}, n={n}, K_p={Kp}, secondary={secondary})', {'E': E, 'K': K, 'n': n, 'K_p': Kp, 'L': LL})
                         try:
                             sneg = float(np.asarray(fn(-arg, rtol=tol, tol=tol)).ravel()[0])
                         except Exception:   # noqa
                             ctx.count(f'solver-exception:{name}')
                             continue
                         if abs(sneg + s) > slack:
-                            ctx.fail(f'C06:odd:{name}', f'{name}: stress(-L) = {sneg}, stress(L) = {s}', {'E': E, 'K': K, 'n': n, 'K_p': Kp, 'L': LL})
+                            ctx.fail(f'C06:odd:{name}{tt}', f'{name}: stress(-L) = {sneg}, stress(L) = {s}', {'E': E, 'K': K, 'n': n, 'K_p': Kp, 'L': LL})
                         key = secondary
                         if key in prev and not (s > prev[key] - slack):
-                            ctx.fail(f'C06:monotone:{name}', f'{name}: stress not increasing: {prev[key]} -> {s} at load {LL}', {'E': E, 'K': K, 'n': n, 'K_p': Kp, 'L': LL})
+                            ctx.fail(f'C06:monotone:{name}{tt}', f'{name}: stress not increasing: {prev[key]} -> {s} at load {LL}', {'E': E, 'K': K, 'n': n, 'K_p': Kp, 'L': LL})
                         prev[key] = s
                         try:
                             back = float(np.asarray(inv(s, rtol=tol, tol=tol)).ravel()[0])
                             if abs(back - LL) > 200 * (tol + tol * abs(LL)) / n:
-                                ctx.fail(f'C06:inverse:{name}', f'{name}: load(stress({LL})) = {back}', {'E': E, 'K': K, 'n': n, 'K_p': Kp, 'L': LL, 'tol': tol, 'secondary': secondary})
+                                ctx.fail(f'C06:inverse:{name}{tt}', f'{name}: load(stress({LL})) = {back} (tol=rtol={tol})', {'E': E, 'K': K, 'n': n, 'K_p': Kp, 'L': LL, 'tol': tol, 'secondary': secondary})
                         except Exception:   # noqa
                             ctx.count(f'solver-exception-inverse:{name}')
                 # containers (default tolerance)
